@@ -5,12 +5,13 @@ From PUN Require Import Base.Num Model.Interval Model.IntervalFun Proofs.Interva
 Open Scope R_scope.
 
 Section S.
-Variables (fexp flog fsin fcos : R -> R) (fmod : R -> R -> R) (fpow : R -> nat -> R).
+Variables (fexp flog fsin fcos ftan : R -> R) (fmod : R -> R -> R) (fpow : R -> nat -> R).
 Hypothesis fpow_is : forall x k, fpow x k = x ^ k.
 Hypothesis fexp_is : forall x, fexp x = exp x.
 Hypothesis flog_is : forall x, flog x = ln x.
 Hypothesis fsin_is : forall x, fsin x = sin x.
 Hypothesis fcos_is : forall x, fcos x = cos x.
+Hypothesis ftan_is : forall x, ftan x = tan x.
 
 (* monotone functions: the result is exactly [f lo, f hi] = [min f, max f] *)
 Theorem C05_exp_exact lo hi : lo <= hi ->
@@ -52,6 +53,14 @@ Theorem C05_sin_encloses lo hi a b x : lo <= hi -> isin RN PI fsin fmod (lo, hi)
 Proof. exact (isin_encl fsin fmod fsin_is fmod_spec lo hi a b x). Qed.
 Theorem C05_cos_encloses lo hi a b x : lo <= hi -> icos RN PI fcos fmod (lo, hi) = Ok (a, b) -> lo <= x <= hi -> a <= cos x <= b.
 Proof. exact (icos_encl fcos fmod fcos_is fmod_spec lo hi a b x). Qed.
+(* tan: a bounded result means that no pole lies in the interval and tan stays between the bounds; an interval at least pi wide is
+   reported unbounded (end points are assumed not to be poles themselves: no binary64 number is an odd multiple of pi/2) *)
+Hypothesis fmodpi_spec : forall x, exists k : Z, fmod x PI = x - IZR k * PI /\ 0 <= fmod x PI < PI.
+Theorem C05_tan_encloses lo hi a b x : lo <= hi -> cos lo <> 0 -> cos hi <> 0 ->
+  itan RN PI ftan fmod (lo, hi) = Ok (@Fin RN a, @Fin RN b) -> lo <= x <= hi -> cos x <> 0 /\ a <= tan x <= b.
+Proof. exact (itan_encl ftan fmod ftan_is fmodpi_spec lo hi a b x). Qed.
+Theorem C05_tan_wide lo hi : PI <= hi - lo -> itan RN PI ftan fmod (lo, hi) = Ok (@MInf RN, @PInf RN).
+Proof. exact (itan_wide ftan fmod lo hi). Qed.
 Theorem C05_sin_full_period lo hi x : 2 * PI <= hi - lo ->
   isin RN PI fsin fmod (lo, hi) = Ok (-1, 1) /\ -1 <= sin x <= 1.
 Proof. exact (isin_full_period fsin fmod lo hi x). Qed.
@@ -68,3 +77,4 @@ Print Assumptions C05_negative_pow_encloses.
 Print Assumptions C05_negative_pow_pole.
 Print Assumptions C05_sin_encloses.
 Print Assumptions C05_cos_encloses.
+Print Assumptions C05_tan_encloses.
